@@ -9,7 +9,7 @@
    laws, index reads on known lists, conditions decided by lia from the case the model is in), so that the form of a
    condition (inverted if/else, else-if chains, && split into nested ifs, a helper extracted or inlined) does not matter. *)
 From Coq Require Import List ZArith Lia Bool Arith ZifyBool.
-From V Require Import Lib.Enc Lib.GoSem Proofs.GoSemFacts Gen.StrzStd Gen.StrconvCode Model.Strconv Model.Hex Proofs.StrconvLoop Proofs.HexCodec.
+From V Require Import Lib.Enc Lib.GoSem Proofs.GoSemFacts Gen.StrzStd Gen.StrconvCode Model.Strconv Model.Hex Proofs.StrconvLoop Proofs.HexCodec Run.C15 Run.C15Code.
 Import ListNotations.
 Local Open Scope Z_scope.
 Arguments Z.mul : simpl never.
@@ -130,7 +130,11 @@ Ltac decide_if :=
 (* substitute the let at the head of the left-hand side (a join point is copied to its call sites, its own lets stay) *)
 Ltac head_let :=
   lazymatch goal with
-  | |- (let x := ?v in @?b x) = ?r => let t := eval cbv beta in (b v) in change (t = r)
+  | |- (let x := ?v in @?b x) = ?r =>
+      lazymatch type of v with
+      | forall _, _ => fail "a join point"
+      | _ => let t := eval cbv beta in (b v) in change (t = r)
+      end
   end.
 Ltac small_wrap :=
   match goal with
@@ -279,9 +283,7 @@ Proof.
 Qed.
 
 (* ================================================================== hexDecode (strz/std_hex.go) *)
-(* the error value of the generated code for the model's error: nil = 0, the kinds of gen/strconv_code.go *)
-Definition herr_code (e : herr) : Z :=
-  match e with NoErr => 0 | InvalidByte c => errk_InvalidByte c | ErrLength => errk_ErrLength end.
+(* herr_code (Run/C15Code.v): the error value of the generated code for the model's error *)
 
 Lemma hex_decode_acc src acc : hex_decode src acc = (acc ++ fst (hex_decode src []), snd (hex_decode src [])).
 Proof. rewrite (decode_spec src acc), (decode_spec src []). reflexivity. Qed.
@@ -457,7 +459,14 @@ Qed.
    at the end of both branches.  [name_join K] names the first one of the goal, so that one general fact about it can be
    proved (once) and used at every call. *)
 Ltac open_top f := cbv delta [f]; cbv beta.
-Ltac name_join K := match goal with |- context [let k := ?F in _] => set (K := F) end.
+Ltac name_join K :=
+  match goal with |- context [let k := ?F in _] => lazymatch type of F with forall _, _ => set (K := F) end end.
+(* the join point at the head of the left-hand side: name it and put the name at its call sites *)
+Ltac head_join K :=
+  lazymatch goal with
+  | |- (let x := ?v in @?b x) = ?r =>
+      lazymatch type of v with forall _, _ => set (K := v); let t := eval cbv beta in (b K) in change (t = r) end
+  end.
 
 (* the model, with the literal pattern 48 :: c1 :: t spelled as a test *)
 Definition us_strip (s : list Z) : list Z := match s with c :: t => if (c =? 45) || (c =? 43) then t else s | [] => s end.
@@ -569,3 +578,219 @@ Proof.
   destruct s as [|c0 t]; [mev; rewrite HK by exact Hf; reflexivity|].
   destruct (Z.eqb_spec c0 45); [|destruct (Z.eqb_spec c0 43)]; cbn [orb]; mev; rewrite HK by (cbn [length] in Hf; cbn [length]; lia); reflexivity.
 Qed.
+
+(* ================================================================== ParseUint (strz/std_strconv.go) *)
+(* what the code returns for a model result: (value, error) with the error kinds of gen/strconv_code.go, nil = 0 *)
+Definition pres (r : presult) : Z * Z := (presult_val r, presult_kind r).
+
+(* the model's frame, cut where the code has its join point "after the base switch" (definitional) *)
+Definition frame_pre (s : list Z) (c0 : Z) (base : Z) : option (Z * list Z) :=
+  let base0 := base =? 0 in
+  if (g_base_lo <=? base) && (base <=? g_base_hi) then Some (base, s)
+  else if base0 then
+    if c0 =? 48 then
+      match s with
+      | _ :: c1 :: ((_ :: _) as t) =>
+          if lower c1 =? 98 then Some (2, t)
+          else if lower c1 =? 111 then Some (8, t)
+          else if lower c1 =? 120 then Some (16, t)
+          else Some (8, tl s)
+      | _ => Some (8, tl s)
+      end
+    else Some (10, s)
+  else None.
+Definition frame_end (ok : bool) (r : presult + (Z * bool)) : presult :=
+  match r with inl e => e | inr (n, us) => if us && negb ok then PSyntax else POk n end.
+Definition frame_rest (base0 : bool) (s : list Z) (bitSize b : Z) (body : list Z) : presult :=
+  let bits := if bitSize =? 0 then word_bits else bitSize in
+  if (bitSize <? g_bits_min) || (g_bits_max <? bitSize) then PBitSize
+  else frame_end (underscore_ok s) (digit_loop base0 b bits body 0 false).
+Lemma parse_uint_eq c0 t base bitSize :
+  parse_uint (c0 :: t) base bitSize =
+  match frame_pre (c0 :: t) c0 base with None => PBase | Some (b, body) => frame_rest (base =? 0) (c0 :: t) bitSize b body end.
+Proof. reflexivity. Qed.
+
+(* one character of the digit loop *)
+Definition pstep (base0 : bool) (base bits c n : Z) (us : bool) : presult + (Z * bool) :=
+  if (c =? 95) && base0 then inr (n, true)
+  else match digit_of c with
+       | None => inl PSyntax
+       | Some d =>
+           if base mod 256 <=? d then inl PSyntax
+           else if cutoff base <=? n then inl (PRange (maxval bits))
+           else let n' := w64 (n * base) in
+                let n1 := w64 (n' + d) in
+                if (n1 <? n') || (maxval bits <? n1) then inl (PRange (maxval bits)) else inr (n1, us)
+       end.
+Lemma digit_loop_cons base0 base bits c t n us :
+  digit_loop base0 base bits (c :: t) n us =
+  match pstep base0 base bits c n us with inl e => inl e | inr (n', us') => digit_loop base0 base bits t n' us' end.
+Proof.
+  cbn [digit_loop]. unfold pstep. destruct ((c =? 95) && base0); [reflexivity|].
+  destruct (digit_of c) as [d|]; [|reflexivity].
+  destruct (base mod 256 <=? d); [reflexivity|]. destruct (cutoff base <=? n); [reflexivity|].
+  cbv zeta. destruct ((w64 (w64 (n * base) + d) <? w64 (n * base)) || (maxval bits <? w64 (w64 (n * base) + d))); reflexivity.
+Qed.
+Lemma digit_of_some c d : digit_of c = Some d ->
+  (48 <= c <= 57 /\ d = c - 48) \/ (~ 48 <= c <= 57 /\ 97 <= lower c <= 122 /\ d = lower c - 97 + 10).
+Proof.
+  unfold digit_of. destruct (Z.leb_spec 48 c); destruct (Z.leb_spec c 57); cbn [andb]; try (intros E; inversion E; lia).
+  all: destruct (Z.leb_spec 97 (lower c)); destruct (Z.leb_spec (lower c) 122); cbn [andb]; try (intros E; inversion E; lia); discriminate.
+Qed.
+Lemma digit_of_none c : digit_of c = None -> ~ 48 <= c <= 57 /\ ~ 97 <= lower c <= 122.
+Proof.
+  unfold digit_of. destruct (Z.leb_spec 48 c); destruct (Z.leb_spec c 57); cbn [andb]; try discriminate.
+  all: destruct (Z.leb_spec 97 (lower c)); destruct (Z.leb_spec (lower c) 122); cbn [andb]; try discriminate; lia.
+Qed.
+
+(* maxVal := uint64(1)<<uint(bitSize) - 1 as the code computes it *)
+Lemma maxval_code bits : 0 <= bits <= 64 -> wrap 64 (wrap 64 (Z.shiftl 1 (wrap 64 bits)) - 1) = maxval bits.
+Proof.
+  intros H. rewrite (wrap64_small bits) by lia. rewrite Z.shiftl_1_l. unfold maxval.
+  destruct (Z.ltb_spec bits 64); [reflexivity|]. assert (bits = 64) by lia. subst bits. reflexivity.
+Qed.
+(* cutoff := maxUint64/uint64(base) + 1 as the code computes it in the default case *)
+Lemma cutoff_code b : 2 <= b <= 36 -> wrap 64 (Z.quot 18446744073709551615 b + 1) = cutoff b.
+Proof.
+  intros H. unfold cutoff. change g_max_uint64 with 18446744073709551615. change g_cutoff_add with 1.
+  rewrite Z.quot_div_nonneg by lia. apply wrap64_small.
+  assert (0 <= 18446744073709551615 / b) by (apply Z.div_pos; lia).
+  assert (18446744073709551615 / b < 9223372036854775808) by (apply Z.div_lt_upper_bound; lia). lia.
+Qed.
+Lemma m_quot_nz a b : b <> 0 -> m_quot a b = Ret (Z.quot a b).
+Proof. intros H. unfold m_quot, goquot. destruct (Z.eqb_spec b 0); [contradiction|reflexivity]. Qed.
+
+(* the digit loop and the code behind it, for any order pk of (underscores, n, i), given what one iteration does *)
+Lemma pu_while {St} (pk : bool -> Z -> Z -> St) (c : St -> M bool) (b : St -> M (ctl St (Z * Z))) (p : St -> M St)
+    (after : St + Z * Z -> M (Z * Z)) (base0 : bool) (base bits : Z) (ok : bool) (body : list Z) :
+  (forall k us n, (k < length body)%nat ->
+     iter1 c b p (pk us n (Z.of_nat k)) =
+     Ret (match pstep base0 base bits (nth k body 0) n us with
+          | inl e => inr (inr (pres e)) | inr (n', us') => inl (pk us' n' (Z.of_nat k + 1)) end)) ->
+  (forall us n, iter1 c b p (pk us n (zlen body)) = Ret (inr (inl (pk us n (zlen body))))) ->
+  (forall us n i, after (inl (pk us n i)) = Ret (pres (frame_end ok (inr (n, us))))) ->
+  (forall v, after (inr v) = Ret v) ->
+  forall f k n us, (k <= length body)%nat -> (length body - k < f)%nat ->
+    bind (while f c b p (pk us n (Z.of_nat k))) after = Ret (pres (frame_end ok (digit_loop base0 base bits (skipn k body) n us))).
+Proof.
+  intros Hstep Hend Hafter Hret. induction f as [|f IH]; intros k n us Hk Hf; [lia|]. rewrite while_iter.
+  destruct (Nat.eq_dec k (length body)) as [->|Hne].
+  - fold (zlen body). rewrite Hend. cbn [bind]. rewrite Hafter, skipn_all. reflexivity.
+  - assert (Hlt : (k < length body)%nat) by lia. rewrite (Hstep k _ _ Hlt), (skipn_cons_nth body k Hlt), digit_loop_cons.
+    destruct (pstep base0 base bits (nth k body 0) n us) as [e|[n' us']]; cbn [bind].
+    + apply Hret.
+    + replace (Z.of_nat k + 1) with (Z.of_nat (S k)) by lia. apply IH; lia.
+Qed.
+
+Ltac pu_shape pk c b p after fuel base0 bv bits ok body :=
+  let H1 := fresh "H1" in let H2 := fresh "H2" in let H3 := fresh "H3" in
+  assert (H1 : forall k us n, (k < length body)%nat ->
+     iter1 c b p (pk us n (Z.of_nat k)) =
+     Ret (match pstep base0 bv bits (nth k body 0) n us with
+          | inl e => inr (inr (pres e)) | inr (n', us') => inl (pk us' n' (Z.of_nat k + 1)) end));
+  [ let k := fresh "k" in let ch := fresh "ch" in
+    intros k ? ? ?; iter_open; unfold pstep;
+    assert (Hl : (Z.of_nat k <? zlen body) = true) by (unfold zlen; lia);
+    repeat first [ rewrite Hl | rewrite (m_get_eq body _ k) by lia | rewrite bind_Ret | progress cbv beta iota ];
+    generalize (nth k body 0); intros ch; clear Hl;
+    destruct ((ch =? 95) && base0) eqn:?; [ mev; reflexivity | ];
+    let E := fresh "E" in
+    destruct (digit_of ch) as [?d|] eqn:E;
+    [ apply digit_of_some in E; destruct E as [[? ?]|[? [? ?]]]; subst | apply digit_of_none in E; destruct E ];
+    unfold lower in *; mev; try reflexivity;
+    unfold wrap, w64, M64, pres; change (2 ^ 8) with 256; cbn [presult_val presult_kind];
+    crush_eq
+  | assert (H2 : forall us n, iter1 c b p (pk us n (zlen body)) = Ret (inr (inl (pk us n (zlen body)))));
+    [ intros; iter_open; rewrite Z.ltb_irrefl; reflexivity
+    | assert (H3 : forall us n i, after (inl (pk us n i)) = Ret (pres (frame_end ok (inr (n, us)))));
+      [ let us := fresh "us" in intros us ? ?; cbv beta iota; unfold frame_end; destruct us; mev;
+        rewrite ?code_underscoreOK by lia; mev; try reflexivity; destruct ok; reflexivity
+      | let E := fresh "E" in
+        pose proof (pu_while pk c b p after base0 bv bits ok body H1 H2 H3 (fun v => eq_refl) fuel 0%nat 0 false ltac:(lia) ltac:(lia)) as E;
+        change (Z.of_nat 0) with 0 in E; cbn [skipn] in E; cbv beta in E; rewrite E; clear E H1 H2 H3 ] ] ].
+
+(* for EVERY text, base and bit size, and every fuel above the length of the text: value and error kind of the model
+   (Go's int is unbounded in the translation; ParseUint's ints are indices <= len(s), nothing can overflow) *)
+Theorem code_ParseUint : forall fuel s base bitSize, (length s < fuel)%nat ->
+  g_ParseUint fuel s base bitSize = Ret (pres (parse_uint s base bitSize)).
+Proof.
+  intros fuel s base bitSize Hf. open_top g_ParseUint.
+  destruct s as [|c0 t]; [reflexivity|]. rewrite parse_uint_eq. set (s := c0 :: t) in *.
+  decide_if. cbv beta iota. repeat head_let. head_join K1.
+  (* the rest of the function, behind the base switch: for every text body and base b that the switch hands over *)
+  assert (HK1 : forall body b, 2 <= b <= 36 -> (length body <= length s)%nat ->
+            K1 body b = Ret (pres (frame_rest (base =? 0) s bitSize b body))).
+  { intros body b Hb Hlen. subst K1. cbv beta. repeat head_let. head_join K16.
+    (* behind the bit size check *)
+    assert (HK16 : forall bits, 1 <= bits <= 64 ->
+              K16 bits = Ret (pres (frame_end (underscore_ok s) (digit_loop (base =? 0) b bits body 0 false)))).
+    { intros bits Hbits. subst K16. cbv beta. repeat head_let. head_join K17.
+      (* behind the cutoff switch: the digit loop and the final underscore check *)
+      assert (HK17 : forall cutoffv, cutoffv = cutoff b ->
+                K17 cutoffv = Ret (pres (frame_end (underscore_ok s) (digit_loop (base =? 0) b bits body 0 false)))).
+      { intros cutoffv ->. subst K17. cbv beta.
+        let U := fresh "U" in set (U := g_underscoreOK); open_code; subst U.
+        rewrite ?maxval_code by lia.
+        match goal with |- bind (while fuel ?c ?lb ?p ?s0) ?after = _ =>
+          first [ pu_shape (fun (us : bool) (n i : Z) => (us, n, i)) c lb p after fuel (base =? 0) b bits (underscore_ok s) body
+                | pu_shape (fun (us : bool) (n i : Z) => (us, i, n)) c lb p after fuel (base =? 0) b bits (underscore_ok s) body
+                | pu_shape (fun (us : bool) (n i : Z) => (n, us, i)) c lb p after fuel (base =? 0) b bits (underscore_ok s) body
+                | pu_shape (fun (us : bool) (n i : Z) => (i, us, n)) c lb p after fuel (base =? 0) b bits (underscore_ok s) body
+                | pu_shape (fun (us : bool) (n i : Z) => (n, i, us)) c lb p after fuel (base =? 0) b bits (underscore_ok s) body
+                | pu_shape (fun (us : bool) (n i : Z) => (i, n, us)) c lb p after fuel (base =? 0) b bits (underscore_ok s) body ]
+        end. reflexivity. }
+      clearbody K17. open_code.
+      destruct (Z.eqb_spec b 10) as [->|]; [|destruct (Z.eqb_spec b 16) as [->|]]; mev;
+        rewrite ?m_quot_nz by lia; mev; apply HK17; first [ reflexivity | apply cutoff_code; lia ]. }
+    clearbody K16. open_code. unfold frame_rest, g_bits_min, g_bits_max, word_bits.
+    destruct (Z.eqb_spec bitSize 0) as [->|]; [mev; apply HK16; lia|].
+    destruct ((bitSize <? 0) || (64 <? bitSize)) eqn:Eb; mev; [reflexivity|]. apply HK16; lia. }
+  clearbody K1. open_code. unfold frame_pre, g_base_lo, g_base_hi, lower.
+  destruct ((2 <=? base) && (base <=? 36)) eqn:Erange; [mev; rewrite HK1 by lia; reflexivity|].
+  destruct (Z.eqb_spec base 0) as [->|]; [|mev; reflexivity].
+  change (0 =? 0) with true in *. cbv beta iota. subst s.
+  destruct (Z.eqb_spec c0 48) as [->|]; [|mev; rewrite HK1 by lia; reflexivity].
+  destruct t as [|c1 [|c2 t]]; try (mev; rewrite HK1 by (cbn [length]; lia); reflexivity).
+  destruct (Z.eqb_spec (Z.lor c1 32) 98); [|destruct (Z.eqb_spec (Z.lor c1 32) 111); [|destruct (Z.eqb_spec (Z.lor c1 32) 120)]];
+    mev; rewrite HK1 by (cbn [length]; lia); reflexivity.
+Qed.
+
+(* ================================================================== the case interpreter through the generated code *)
+Lemma is_byteb_Forall s : forallb is_byteb s = true -> Forall is_byte s.
+Proof.
+  intros H. rewrite forallb_forall in H. apply Forall_forall. intros c Hc. specialize (H c Hc).
+  unfold is_byteb in H. unfold is_byte. lia.
+Qed.
+Lemma herr_tokens_code e : herr_tokens_of_code (herr_code e) = herr_tokens e.
+Proof.
+  destruct e as [|c|]; try reflexivity. unfold herr_tokens_of_code, herr_code, errk_InvalidByte, errk_ErrLength, herr_tokens.
+  destruct (Z.eqb_spec (5 + 16 * c) 0); [lia|]. destruct (Z.eqb_spec (5 + 16 * c) 6); [lia|].
+  replace (5 + 16 * c - 5) with (c * 16) by lia. rewrite Z.div_mul by lia. reflexivity.
+Qed.
+
+(* what the check executes as `entry 0` IS, for ParseUint / HexEncode / HexDecode, the generated code *)
+Theorem entry_code_is_entry : forall sub args, entry_code sub args = entry sub args.
+Proof.
+  intros sub args. unfold entry_code. destruct (sub =? 0) eqn:Es; [|reflexivity].
+  unfold entry. rewrite Es. destruct args as [|k [|a [|b r]]]; try reflexivity.
+  destruct (get_list r) as [l1 r1]. destruct (get_list r1) as [l2 r2].
+  unfold run_code, run.
+  destruct (k =? 0).
+  { rewrite code_ParseUint by lia. cbn [enc_m]. unfold pres, presult_tokens. reflexivity. }
+  destruct (k =? 1).
+  { destruct (forallb is_byteb l1) eqn:Eb; [|reflexivity]. rewrite code_HexEncode by (auto using is_byteb_Forall). reflexivity. }
+  destruct (k =? 2); [|reflexivity].
+  rewrite code_HexDecode by lia. cbn [enc_m]. rewrite herr_tokens_code. destruct (hex_decode l1 []). reflexivity.
+Qed.
+
+(* in-kernel anchors: the generated code computes (same cases as the anchors of Run/C15.v) *)
+Example anchor_parse_code : entry_code 0 [0; 16; 8; 2; 102; 70; 0; 0] = [0; 0; 255; 1; 1; 1].
+Proof. vm_compute. reflexivity. Qed.
+Example anchor_range_code : entry_code 0 [0; 10; 8; 3; 50; 53; 54; 0; 0] = [2; 0; 255; 1; 1; 1].
+Proof. vm_compute. reflexivity. Qed.
+Example anchor_base0_code : entry_code 0 [0; 0; 64; 5; 48; 120; 95; 49; 102; 0; 0] = [0; 0; 31; 1; 1; 1].
+Proof. vm_compute. reflexivity. Qed.
+Example anchor_hexdec_code : entry_code 0 [2; 0; 0; 5; 52; 49; 103; 52; 50; 0; 0] = [1; 65; 1; 103; 1; 1; 1].
+Proof. vm_compute. reflexivity. Qed.
+Example anchor_hexenc_code : entry_code 0 [1; 0; 0; 2; 65; 255; 0; 0] = [4; 52; 49; 102; 102; 1; 1; 1].
+Proof. vm_compute. reflexivity. Qed.
